@@ -333,12 +333,12 @@ func TestC20_Seq(t *testing.T) { seqProp.Check(t) }
 
 type ConcScript struct {
 	Max       int   `json:"max"`
-	Streams   int   `json:"streams"`  // appender goroutines (one per stream), spread over 2 sessions
-	Appends   int   `json:"appends"`  // per appender
-	Sizes     []int `json:"sizes"`    // cycled payload sizes
-	Readers   int   `json:"readers"`  // reader goroutines per stream
-	Limits    []int `json:"limits"`   // SetMaxBytes values applied by a limiter goroutine
-	CloseSess bool  `json:"close"`    // a goroutine closes session 1 midway (its appenders keep appending: stream restarts)
+	Streams   int   `json:"streams"` // appender goroutines (one per stream), spread over 2 sessions
+	Appends   int   `json:"appends"` // per appender
+	Sizes     []int `json:"sizes"`   // cycled payload sizes
+	Readers   int   `json:"readers"` // reader goroutines per stream
+	Limits    []int `json:"limits"`  // SetMaxBytes values applied by a limiter goroutine
+	CloseSess bool  `json:"close"`   // a goroutine closes session 1 midway (its appenders keep appending: stream restarts)
 }
 
 func genConc(rt *rapid.T) ConcScript {
